@@ -299,6 +299,10 @@ static void vg_any_options(void)
 	__CPROVER_assume(vg_options.overwrite_policy == LHA_OVERWRITE_PROMPT ||
 	                 vg_options.overwrite_policy == LHA_OVERWRITE_SKIP ||
 	                 vg_options.overwrite_policy == LHA_OVERWRITE_ALL);
+#ifdef VG_NO_PROMPT
+	/* BOUND (whole-archive extract group only): no interactive overwrite prompt; the prompt path is covered per member in print.extract_archived_file */
+	__CPROVER_assume(vg_options.overwrite_policy != LHA_OVERWRITE_PROMPT);
+#endif
 	vg_filter.reader = vg_reader;
 	vg_filter.filters = NULL;
 	vg_filter.num_filters = 0;
